@@ -28,7 +28,9 @@ def config(tier):
         "negctl": 10,
         "sim": {"num": 300 if q else 5000, "depth": 8},
         "emit": [{"name": "conn", "module": "MCApi", "cfg": "MCApiConn", "workers": 8,
-                  "env": {} if q else {"CONN_MAXEDGES": "2"}}],
+                  "env": {} if q else {"CONN_MAXEDGES": "2"}},
+                 {"name": "add", "module": "MCApi", "cfg": "MCApiAdd", "workers": 8,
+                  "env": {"CGV_EMIT_K": "25" if q else "3"}}],
     }
 
 
@@ -224,8 +226,9 @@ def norm_compact(s):
 
 
 def cases(ctx):
-    for k, t in enumerate(ctx.emitted("conn")):
-        yield {"op": "transition", "t": t, "k": k, "src": "TLCSTEP"}
+    for name in ("conn", "add"):
+        for k, t in enumerate(ctx.emitted(name)):
+            yield {"op": "transition", "t": t, "k": k, "src": "TLCSTEP"}
     kids = children()
     n = 250 if ctx.quick else 4000
     for j in range(n):
